@@ -6,6 +6,7 @@ package main
 // batches of this and of other rollups.
 
 import (
+	"database/sql"
 	"context"
 	"encoding/json"
 	"fmt"
@@ -57,6 +58,7 @@ type baWorld struct {
 	lers   [5]common.Hash
 	lcount int
 	infos  []baInfo
+	injected []int // L1 info leaf indexes whose global exit root has been injected on the L2
 }
 
 func (w *baWorld) fail(d string) { w.r.Fail(d, append([]string{}, w.lines...)) }
@@ -208,8 +210,57 @@ func (w *baWorld) exec(line string) string {
 			return "err l2 bridge"
 		}
 		return "ok"
+	case "inj": // inj <l2 block> <l1 info leaf index>: the oracle injected that leaf's global exit root on this L2
+		bn, idx := u(ws[1]), int(u(ws[2]))
+		if idx >= len(w.infos) {
+			return "bad-op"
+		}
+		ger := crypto.Keccak256Hash(w.infos[idx].mer[:], w.infos[idx].rer[:])
+		blk := sync.Block{Num: bn, Hash: common.BigToHash(new(big.Int).SetUint64(bn + 5000)),
+			Events: []interface{}{&lastgersync.Event{GERInfo: &lastgersync.GlobalExitRootInfo{GlobalExitRoot: ger, L1InfoTreeIndex: uint32(idx)}}}}
+		if err := w.ger.ProcessBlock(ctx, blk); err != nil {
+			return "err ger"
+		}
+		w.injected = append(w.injected, idx)
+		return "ok"
 	case "q":
 		switch ws[1] {
+		case "inj": // q inj <net> <l1 info leaf index>: /injected-l1-info-leaf
+			net, idx := uint32(u(ws[2])), uint32(u(ws[3]))
+			code, body := w.get(fmt.Sprintf("%s/injected-l1-info-leaf?network_id=%d&leaf_index=%d", bridgeservice.BridgeV1Prefix, net, idx))
+			w.r.Evals++
+			// the first injected leaf at or after the requested index (the model's answer is compared line by line; this is
+			// the property's own reading: the leaf handed out must be one whose global exit root this L2 really has)
+			want := -1
+			for _, k := range w.injected {
+				if k >= int(idx) && (want < 0 || k < want) {
+					want = k
+				}
+			}
+			if net == 0 {
+				want = -1
+				if int(idx) < len(w.infos) {
+					want = int(idx)
+				}
+			}
+			if code != http.StatusOK {
+				if want >= 0 {
+					w.fail(fmt.Sprintf("[C12] /injected-l1-info-leaf failed (%d) for network %d, index %d although leaf %d qualifies", code, net, idx, want))
+				}
+				return fmt.Sprintf("err %d", code)
+			}
+			var lf bridgetypes.L1InfoTreeLeafResponse
+			if err := json.Unmarshal(body, &lf); err != nil {
+				return "badjson"
+			}
+			got := int(lf.L1InfoTreeIndex)
+			if got != want {
+				w.fail(fmt.Sprintf("[C12] /injected-l1-info-leaf for network %d, index %d returned leaf %d; the first leaf at or after %d whose global exit root this network has is %d (injected: %v) — a claim against the returned leaf is rejected by the bridge contract", net, idx, got, idx, want, w.injected))
+			} else if got < len(w.infos) && common.HexToHash(string(lf.GlobalExitRoot)) != crypto.Keccak256Hash(w.infos[got].mer[:], w.infos[got].rer[:]) {
+				w.fail(fmt.Sprintf("[C12] /injected-l1-info-leaf returned leaf %d with a global exit root that is not that leaf's", got))
+			}
+			w.r.Count("injq:ok")
+			return fmt.Sprintf("leaf %d", got)
 		case "idx": // q idx <net> <deposit count>
 			net, dc := uint32(u(ws[2])), uint32(u(ws[3]))
 			code, body := w.get(fmt.Sprintf("%s/l1-info-tree-index?network_id=%d&deposit_count=%d", bridgeservice.BridgeV1Prefix, net, dc))
@@ -233,9 +284,28 @@ func (w *baWorld) exec(line string) string {
 			}
 			w.r.Case(fmt.Sprintf("idx:%d:%d", net, min(int(idx), 6)))
 			return fmt.Sprintf("idx %d", idx)
-		case "proof": // q proof <net> <leaf> <deposit count>
+		case "proof", "proof!": // q proof <net> <leaf> <deposit count>; `proof!`: the exit tree's node table cannot be read meanwhile
 			net, leaf, dc := uint32(u(ws[2])), uint32(u(ws[3])), uint32(u(ws[4]))
+			readFault := ws[1] == "proof!"
+			var fdb *sql.DB
+			if readFault {
+				fdb = w.l1b.DB()
+				if net != 0 {
+					fdb = w.l2b.DB()
+				}
+				_, err := fdb.Exec(`ALTER TABLE rht RENAME TO rht_verif_away`)
+				must(err)
+			}
 			code, body := w.get(fmt.Sprintf("%s/claim-proof?network_id=%d&leaf_index=%d&deposit_count=%d", bridgeservice.BridgeV1Prefix, net, leaf, dc))
+			if readFault {
+				_, err := fdb.Exec(`ALTER TABLE rht_verif_away RENAME TO rht`)
+				must(err)
+				w.r.Count("proof-with-unreadable-exit-tree-nodes")
+				if code != http.StatusOK {
+					return "err 500" // the proof cannot be computed: an error, not a proof
+				}
+				// an answer was given all the same: it is judged like any other (it must verify)
+			}
 			w.r.Evals++
 			if code != http.StatusOK {
 				w.fail(fmt.Sprintf("[C12] /claim-proof failed (%d) for network %d, leaf %d, deposit %d although that leaf covers the bridge", code, net, leaf, dc))
@@ -320,6 +390,7 @@ func baGen(r *Run, rng *Rng) {
 		do("new")
 		l1, l2 := uint64(0), uint64(0)
 		l1n, l2n := 0, 0 // deposits so far
+		injBlk := uint64(0)
 		lastMc, lastLc := 0, 0
 		rerV, lastKey := 0, [2]int{-1, -1} // the contract records an info leaf only when the global exit root changed
 		zeroMER := rng.Chance(60) || wi%4 == 0
@@ -432,7 +503,26 @@ func baGen(r *Run, rng *Rng) {
 			} else {
 				do(fmt.Sprintf("l1blk %d %s", l1, strings.Join(toks, " ")))
 			}
+			if len(w.infos) > 0 && rng.Chance(45) {
+				// the oracle injects one of the newer L1 info leaves on the L2 (never all of them: several updates lie between
+				// two injections)
+				k := len(w.infos) - 1 - rng.Intn(min(3, len(w.infos)))
+				dup := false
+				for _, j := range w.injected {
+					dup = dup || j == k
+				}
+				if !dup {
+					injBlk++
+					do(fmt.Sprintf("inj %d %d", injBlk, k))
+				}
+			}
 			if st%3 == 2 || st == steps-1 {
+				for k := 0; k <= len(w.infos); k++ {
+					do(fmt.Sprintf("q inj %d %d", baNet, k))
+					if rng.Chance(30) {
+						do(fmt.Sprintf("q inj 0 %d", k))
+					}
+				}
 				// ask for every deposit (and one beyond) on both networks; for a few covering leaves ask for the proof
 				for dc := 0; dc <= l1n; dc++ {
 					do(fmt.Sprintf("q idx 0 %d", dc))
@@ -446,6 +536,12 @@ func baGen(r *Run, rng *Rng) {
 					}
 					if w.infos[k].lcount > 0 && rng.Chance(50) {
 						do(fmt.Sprintf("q proof %d %d %d", baNet, k, rng.Intn(w.infos[k].lcount)))
+					}
+					if w.infos[k].mcount > 0 && rng.Chance(15) {
+						do(fmt.Sprintf("q proof! 0 %d %d", k, rng.Intn(w.infos[k].mcount)))
+					}
+					if w.infos[k].lcount > 0 && rng.Chance(15) {
+						do(fmt.Sprintf("q proof! %d %d %d", baNet, k, rng.Intn(w.infos[k].lcount)))
 					}
 				}
 			}
